@@ -76,8 +76,8 @@ def find_wait_loop(project: Project) -> Tuple[FuncInfo, ast.AST, ast.Assign, Fun
         raise AnalysisError("send_message lost its stream parameters")
     cands = []
     for f in reachable(project, root, depth=3):
-        if f.module.name != MOD_SEND:
-            continue
+        if not f.module.name.startswith("chuk_mcp.protocol.messages"):
+            continue  # the wait loop lives in the request layer (it may have been moved to a sibling module)
         streams = set(f.params()) | ({rparams[0]} if f is root or f.parent is root else set())
         for n in walk_local(f.node):
             if isinstance(n, (ast.While, ast.For, ast.AsyncFor)):
